@@ -415,19 +415,20 @@ public:
   inline void* allocate(size_t size, size_t& allocated) {
     // Increase to alignment
     size_t alignedSize = (size + sizeof(double) - 1) & ~(sizeof(double) - 1);
-    if (alignedSize > SourceHeap::AllocSize) {
-      alignedSize = SourceHeap::AllocSize;
+    // a block offers AllocSize minus its header
+    if (alignedSize > SourceHeap::AllocSize - sizeof(Block)) {
+      alignedSize = SourceHeap::AllocSize - sizeof(Block);
     }
-    // Check current block
-    if (!head || offset + alignedSize > SourceHeap::AllocSize) {
+    // No block yet, or the current block is full
+    if (!head || (size_t)offset == (size_t)SourceHeap::AllocSize) {
+      refill();
+    }
+    // Otherwise hand out what is left in the current block
+    if (offset + alignedSize > SourceHeap::AllocSize) {
       size_t remaining = SourceHeap::AllocSize - offset;
       assert((remaining & (sizeof(double) - 1)) ==
              0); // should still be aligned
-      if (!remaining) {
-        refill();
-      } else {
-        alignedSize = remaining;
-      }
+      alignedSize = remaining;
     }
     char* retval = (char*)head;
     retval += offset;
